@@ -12,7 +12,9 @@
      ReadOK   a register it reads from the tables has no writer among w .. k-1 (hazard check), or
      RecvOK   it is the ONE register it receives through a channel from the unique earlier writer
               (forwarding: the writer is still in the execute bus, marked with the channel, or has
-              executed and the channel holds its result). *)
+              executed and the channel holds its result).
+   bi_fnd (added for the execute-unit step of Mvp63RefExec.v): the Forwarder channels of the entries of the
+   execute bus are pairwise different (every channel id is x_next at its creation). *)
 From Coq Require Import ZArith List Bool Lia Permutation.
 From Maj Require Import Base.Outcome Base.GoInt Base.GoTypes Isa.Spec Isa.Embed Isa.Seq Isa.Refine.
 From Maj Require Import Gen.Latency Gen.RiscTables Gen.Opcodes Comp.Cache Comp.Rat Comp.RatProofs.
@@ -28,6 +30,16 @@ Definition recvs (l : list runner3) : list Z :=
 
 Lemma recvs_app a b : recvs (a ++ b) = recvs a ++ recvs b.
 Proof. unfold recvs. apply flat_map_app. Qed.
+
+(* the channels the entries of a list will send their result to *)
+Definition fwds (l : list runner3) : list Z :=
+  flat_map (fun r => match q_fwder r with Some ch => [ch] | None => [] end) l.
+
+Lemma fwds_app a b : fwds (a ++ b) = fwds a ++ fwds b.
+Proof. unfold fwds. apply flat_map_app. Qed.
+
+Lemma fwds_in l r ch : In r l -> q_fwder r = Some ch -> In ch (fwds l).
+Proof. intros H E. unfold fwds. apply in_flat_map. exists r. split; [exact H|]. rewrite E. left. reflexivity. Qed.
 
 Lemma recvs_in l r ch : In r l -> q_recv r = Some ch -> In ch (recvs l).
 Proof. intros H E. unfold recvs. apply in_flat_map. exists r. split; [exact H|]. rewrite E. left. reflexivity. Qed.
@@ -96,6 +108,9 @@ Proof.
   induction l as [|a t IH]; cbn [List.app]; intros H; [constructor|]. inversion H as [|? ? Hni Hnd]; subst.
   constructor; [intros Hin; apply Hni; apply in_or_app; left; exact Hin | apply IH; exact Hnd].
 Qed.
+
+Lemma NoDup_app_right {A} (l l' : list A) : NoDup (l ++ l') -> NoDup l'.
+Proof. induction l as [|a t IH]; cbn [List.app]; intros H; [exact H|]. inversion H; subst. apply IH. assumption. Qed.
 
 Section Ref.
   Variables (app : list instr) (labels : Z -> option Z) (regs0 mem0 : list Z) (ord : Z -> Z -> list Z -> list Z).
@@ -183,7 +198,8 @@ Section Ref.
     bi_regs : m_regs (x_m x) = regs0;
     bi_mem : m_mem (x_m x) = mem0;
     bi_l3 : lines (m_l3 (x_m x)) = [];
-    bi_os : x_os x = false }.
+    bi_os : x_os x = false;
+    bi_fnd : NoDup (fwds (flat (x_ebus x))) }.
 
   (* the invariant depends on these components only *)
   Lemma BI_ext dp d xe w pl pv x x' :
@@ -306,6 +322,43 @@ Section Ref.
 
   Lemma recvs_mark id ch l : recvs (map (mark_fwder id ch) l) = recvs l.
   Proof. unfold recvs. induction l as [|a t IH]; cbn [map flat_map]; [reflexivity|]. rewrite mark_recv, IH. reflexivity. Qed.
+
+  Lemma fwds_mark_in id ch l c : In c (fwds (map (mark_fwder id ch) l)) -> c = ch \/ In c (fwds l).
+  Proof.
+    induction l as [|a t IH]; cbn [map]; [intros []|]. change (a :: t) with ([a] ++ t). change (mark_fwder id ch a :: map (mark_fwder id ch) t) with ([mark_fwder id ch a] ++ map (mark_fwder id ch) t).
+    rewrite !fwds_app. intros H. apply in_app_or in H as [H|H].
+    - unfold mark_fwder in H. destruct (q_id a =? id).
+      + unfold fwds in H. cbn in H. destruct H as [<-|[]]. left. reflexivity.
+      + right. apply in_or_app. left. exact H.
+    - destruct (IH H) as [E|E]; [left; exact E | right; apply in_or_app; right; exact E].
+  Qed.
+
+  Lemma map_mark_other id ch l : (forall b, In b l -> q_id b <> id) -> map (mark_fwder id ch) l = l.
+  Proof.
+    induction l as [|b t IH]; intros H; cbn [map]; [reflexivity|].
+    rewrite (mark_other _ _ _ (H b (or_introl eq_refl))), IH; [reflexivity|]. intros c Hc. apply H. right. exact Hc.
+  Qed.
+
+  Lemma fwds_mark_nodup id ch l : NoDup (fwds l) -> ~ In ch (fwds l) -> NoDup (map q_id l) ->
+    (forall a, In a l -> q_id a = id -> q_fwder a = None) -> NoDup (fwds (map (mark_fwder id ch) l)).
+  Proof.
+    induction l as [|a t IH]; intros Hnd Hni Hids Hnone; cbn [map]; [constructor|].
+    change (a :: t) with ([a] ++ t) in Hnd, Hni. change (mark_fwder id ch a :: map (mark_fwder id ch) t) with ([mark_fwder id ch a] ++ map (mark_fwder id ch) t).
+    rewrite fwds_app in *. cbn [map] in Hids. inversion Hids as [|? ? Hida Hidt]; subst.
+    assert (Hndt : NoDup (fwds t)) by (apply NoDup_app_right in Hnd; exact Hnd).
+    assert (Hnit : ~ In ch (fwds t)) by (intros Hx; apply Hni; apply in_or_app; right; exact Hx).
+    specialize (IH Hndt Hnit Hidt ltac:(intros b Hb; apply Hnone; right; exact Hb)).
+    destruct (Z.eq_dec (q_id a) id) as [Eid|Nid].
+    - assert (Hfa : q_fwder a = None) by (apply Hnone; [left; reflexivity | exact Eid]).
+      rewrite (map_mark_other id ch t).
+      2:{ intros b Hb E. apply Hida. rewrite Eid, <- E. apply in_map. exact Hb. }
+      unfold fwds at 1. cbn [flat_map]. rewrite (mark_hit _ _ _ Eid). cbn [List.app]. constructor; assumption.
+    - rewrite (mark_other _ _ _ Nid). unfold fwds at 1. cbn [flat_map]. rewrite app_nil_r.
+      destruct (q_fwder a) as [c|] eqn:Ec; cbn [List.app]; [|exact IH]. constructor; [|exact IH].
+      intros Hin. destruct (fwds_mark_in _ _ _ _ Hin) as [->|Hx].
+      + apply Hni. apply in_or_app. left. unfold fwds. cbn [flat_map]. rewrite Ec. left. reflexivity.
+      + unfold fwds at 1 in Hnd. cbn [flat_map] in Hnd. rewrite Ec in Hnd. cbn [List.app] in Hnd. inversion Hnd as [|? ? Hni' _]; subst. apply Hni'. exact Hx.
+  Qed.
 
   Lemma recvs_snoc_eq l r r' : q_recv r' = q_recv r -> recvs (l ++ [r']) = recvs (l ++ [r]).
   Proof. intros H. rewrite !recvs_app. unfold recvs at 2 4. cbn [flat_map]. rewrite H. reflexivity. Qed.
@@ -443,6 +496,8 @@ Section Ref.
     - cbn. lia.
     - constructor.
     - intros p Hp. destruct (bi_prev0 p Hp) as (A & B & C). split; [apply in_or_app; left; exact A | auto].
+    - rewrite fwds_app. assert (Hf' : q_fwder r' = None) by (pose proof (Forall_inv bi_pendf0) as Hpf; exact Hpf).
+      unfold fwds at 2. cbn [flat_map]. rewrite Hf'. cbn [List.app]. rewrite app_nil_r. exact bi_fnd0.
   Qed.
 
   Definition marked (x : mx) (id : Z) : mx :=
@@ -504,6 +559,10 @@ Section Ref.
     - intros q [].
     - constructor.
     - reflexivity.
+    - apply fwds_mark_nodup; [exact bi_fnd0 | | exact bi_idnd0 |].
+      + intros Hin. unfold fwds in Hin. apply in_flat_map in Hin as (e & He & Hc). rewrite Forall_forall in bi_fwder0.
+        destruct (q_fwder e) as [c|] eqn:Ec; [|destruct Hc]. destruct Hc as [<-|[]]. destruct (bi_fwder0 e He c Ec) as [_ Hlt]. lia.
+      + intros a Ha Eid. assert (a = p) by (eapply nodup_id_eq; eauto). subst a. exact Hpf.
   Qed.
 
   (* ---------------------------------------------------------------- *)
